@@ -112,21 +112,21 @@ type CallSpec struct {
 }
 
 type SchedOpts struct {
-	Strategy string   `json:"strategy"` // uniform | sticky | starve | fifo | envfirst
-	Sticky   int      `json:"sticky,omitempty"`   // percent
-	Starve   []string `json:"starve,omitempty"`   // starved roles
-	Jitter   bool     `json:"jitter,omitempty"`   // offer E:clock
-	Picks    []string `json:"picks,omitempty"`    // recorded schedule (replay)
+	Strategy string             `json:"strategy"`         // uniform | sticky | starve | fifo | envfirst
+	Sticky   int                `json:"sticky,omitempty"` // percent
+	Starve   []string           `json:"starve,omitempty"` // starved roles
+	Jitter   bool               `json:"jitter,omitempty"` // offer E:clock
+	Picks    []string           `json:"picks,omitempty"`  // recorded schedule (replay)
 	Perms    map[string][][]int `json:"perms,omitempty"`
 }
 
 // Expect carries what the generator knows about the traffic it produced (sent frames with the parameters
 // they were built from). Oracles compare the run against this, never against the code under test.
 type Expect struct {
-	Frames [][]SentFrame `json:"frames,omitempty"` // per connection, in stream order
-	Xfers  []Transfer    `json:"xfers,omitempty"`
-	Uploads []Upload     `json:"uploads,omitempty"`
-	Extra  map[string]int64 `json:"extra,omitempty"`
+	Frames  [][]SentFrame    `json:"frames,omitempty"` // per connection, in stream order
+	Xfers   []Transfer       `json:"xfers,omitempty"`
+	Uploads []Upload         `json:"uploads,omitempty"`
+	Extra   map[string]int64 `json:"extra,omitempty"`
 }
 
 // SentFrame is a frame the terminal sends, with the fields it was encoded from.
@@ -150,24 +150,24 @@ type SentFrame struct {
 
 // Transfer is one sub-packaged message.
 type Transfer struct {
-	Conn    int      `json:"conn"`
-	ID      uint16   `json:"id"`
-	Total   int      `json:"total"`
-	Bodies  []Hex    `json:"bodies"`
-	Serial1 uint16   `json:"serial1"`
-	Missing []int    `json:"missing,omitempty"` // never sent in the first round
+	Conn    int    `json:"conn"`
+	ID      uint16 `json:"id"`
+	Total   int    `json:"total"`
+	Bodies  []Hex  `json:"bodies"`
+	Serial1 uint16 `json:"serial1"`
+	Missing []int  `json:"missing,omitempty"` // never sent in the first round
 }
 
 // Upload is one attachment session's expectation.
 type Upload struct {
-	Conn  int        `json:"conn"`
-	Files []UpFile   `json:"files"`
+	Conn  int      `json:"conn"`
+	Files []UpFile `json:"files"`
 }
 
 type UpFile struct {
-	Name   string `json:"name"`
-	Data   Hex    `json:"data"`
-	Type   byte   `json:"type"`
+	Name string `json:"name"`
+	Data Hex    `json:"data"`
+	Type byte   `json:"type"`
 }
 
 func (p *Plan) Clone() *Plan {
